@@ -607,6 +607,238 @@ def attribute_chain(c, o, f):
     return None
 
 
+
+# --------------------------------------------------------------------------- multi-leader
+ML_IMPORTS = "From HS Require Import Base.Prelude C17.Model C17.ML."
+ML_TYPE = "(nat * list Z * list Z) * list mseg * (list node_obs * Z * Z)"
+
+
+def ae_cover(n):
+    """peer choices after which every replica has exchanged (transitively) with every other"""
+    fwd = [(i, i + 1) for i in range(n - 1)]
+    return fwd + [(j, i) for (i, j) in reversed(fwd)]
+
+
+def gen_ml(rng):
+    n = rng.choice([2, 2, 3, 3, 4])
+    nkeys = rng.choice([1, 1, 2, 3])
+    ops = []
+    t = 1000
+    for i in range(rng.randint(1, 8)):
+        t += rng.choice([0, 500, 1000, 1000, 3000, 8000])
+        r = rng.random()
+        if r < 0.7:
+            ops.append([t, "W", rng.randrange(n), rng.randrange(nkeys), 100 + i, rng.random() < 0.8])
+        elif r < 0.85:
+            ops.append([t, "R", rng.randrange(n), rng.randrange(nkeys), 100 + i, True])
+        elif r < 0.97:
+            a = rng.randrange(n)
+            ops.append([t, "A", a, rng.choice([j for j in range(n) if j != a]), 100 + i, False])   # anti-entropy during the writes
+        else:
+            ops.append([t, "O", rng.randrange(n), 0, 100 + i, False])
+    same = rng.random() < 0.5
+    wl = rng.choice([1000, 2000, 3000])
+    return dict(n=n, ops=ops, resolver=rng.choice(["lww", "lww", "vcm"]),
+                wlat=[wl if same else rng.choice([1000, 2000, 3000, 5000]) for _ in range(n)],
+                rlat=[rng.choice([500, 1500]) for _ in range(n)],
+                delays=[rng.choice(DELAYS) for _ in range(rng.randint(1, 12))])
+
+
+def impl_ml(c):
+    import happysimulator.components.replication.multi_leader as mlmod
+    from happysimulator import Event, Instant, Network, SimFuture, Simulation
+    from happysimulator.components.network.link import NetworkLink
+    from happysimulator.components.replication.conflict_resolver import LastWriterWins, VectorClockMerge
+    from happysimulator.components.replication.multi_leader import LeaderNode
+    from hsverif.util import run_bounded
+
+    n = c["n"]
+    net = Network(name="net")
+    stores = [_logged_store(f"s{i}", c["wlat"][i], c["rlat"][i]) for i in range(n)]
+    names = [f"n{i}" for i in range(n)]
+    nodes = [LeaderNode(names[i], store=stores[i], network=net,
+                        conflict_resolver=LastWriterWins() if c["resolver"] == "lww" else VectorClockMerge(),
+                        anti_entropy_interval=5000.0) for i in range(n)]
+    for nd in nodes:
+        nd.add_peers([x for x in nodes if x is not nd])
+    sent_log = []
+    lat = _scripted_latency(c["delays"], sent_log)
+    for a in nodes:
+        for b in nodes:
+            if a is not b:
+                net.add_link(a, b, NetworkLink(name=f"l{a.name}{b.name}", latency=lat))
+    hash_items = {}
+    replies, reads = [], []
+
+    def nix(name):
+        return int(name[1:])
+
+    def ver_of(value, ts, writer, vc):
+        return [value, round(ts * US), nix(writer), [(vc or {}).get(x, 0) for x in names]]
+
+    def vers_of(d):
+        return [[kid(k), ver_of(v["value"], v["timestamp"], v["writer_id"], v.get("vector_clock"))] for k, v in d.items()]
+
+    def describe_in(node, idx, ev):
+        md = ev.context.get("metadata", {})
+        et = ev.event_type
+        if et == "Write":
+            return ["W", md["wid"], kid(md["key"]), md["value"], round(ev.time.to_seconds() * US), md.get("reply_future") is not None]
+        if et == "Read":
+            return ["Rd", md["wid"], kid(md["key"]), md.get("reply_future") is not None]
+        if et == "Replicate":
+            return ["Rep", nix(md["destination"]), kid(md["key"]), ver_of(md["value"], md["timestamp"], md["writer_id"], md["vector_clock"])]
+        if et == "AntiEntropy":
+            return ["AE", md["peer"]]
+        if et == "AntiEntropyRequest":
+            return ["AEReq", nix(md["destination"]), nix(md["source"]), hash_items[md["root_hash"]], vers_of(md["versions"])]
+        if et == "AntiEntropyResponse":
+            return ["AEResp", nix(md["destination"]), vers_of(md["versions"])]
+        return ["O"]
+
+    def describe_out(node, idx, ev):
+        if ev.event_type == "AntiEntropy":
+            return ["Next"]
+        if ev.event_type == "AntiEntropyRequest":
+            hash_items[ev.context["metadata"]["root_hash"]] = [[kid(k), v] for k, v in node.merkle_tree.items()]
+        return ["Send", describe_in(node, idx, ev)]
+
+    def snapshot(node, idx):
+        st = node.stats
+        flat = []
+        for k, vv in node._versions.items():
+            v = ver_of(vv.value, vv.timestamp, vv.writer_id, vv.vector_clock)
+            flat += [kid(k), v[0], v[1], v[2]] + v[3]
+        vcl = node._vclock.snapshot()
+        return [store_items(node.store),
+                [st.writes, st.reads, st.replications_sent, st.replications_received, st.conflicts_detected,
+                 st.conflicts_resolved, st.anti_entropy_syncs, st.anti_entropy_keys_repaired]
+                + [vcl.get(x, 0) for x in names] + [-1] + flat]
+
+    tr = Tracer(describe_in, describe_out, snapshot)
+
+    class ScriptedRandom:
+        def choice(self, seq):
+            peer = tr.cur["inp"][2][1]
+            return [x for x in seq if x.name == f"n{peer}"][0]
+
+    for i, nd in enumerate(nodes):
+        tr.wrap(nd, i)
+    sim = Simulation(start_time=Instant.Epoch, entities=[*nodes, net, *stores])   # ends when only the daemon AntiEntropy timers remain
+    last = 0
+    for (t, kind, node, key, wid, rf) in c["ops"]:
+        last = max(last, t)
+        if kind == "A":
+            sim.schedule(Event(time=Instant.from_seconds(t / US), event_type="AntiEntropy", target=nodes[node],
+                               context={"metadata": {"peer": key}}))
+            continue
+        md = {"key": f"k{key}", "wid": wid}
+        if kind == "W":
+            md["value"] = wid
+        if rf:
+            f = SimFuture()
+            md["reply_future"] = f
+            if kind == "W":
+                f._add_settle_callback(lambda sf, wid=wid: (tr.emit(["Reply", wid]), replies.append([wid, sf._value])))
+            else:
+                f._add_settle_callback(lambda sf, wid=wid: (tr.emit(["RdReply", wid, sf._value.get("value")]), reads.append([wid, sf._value.get("value")])))
+        et = {"W": "Write", "R": "Read", "O": "Bogus"}[kind]
+        sim.schedule(Event(time=Instant.from_seconds(t / US), event_type=et, target=nodes[node], context={"metadata": md}))
+    # after the writes: anti-entropy rounds that cover every pair, far apart
+    pre = {}
+    t = last + 1_000_000
+    sim.schedule(Event.once(time=Instant.from_seconds(t / US - 0.1), event_type="Snap",
+                            fn=lambda e: pre.update(stores=[dict(store_items(s)) for s in stores])))
+    for rnd in range(1):
+        for (a, b) in ae_cover(n):
+            sim.schedule(Event(time=Instant.from_seconds(t / US), event_type="AntiEntropy", target=nodes[a],
+                               context={"metadata": {"peer": b}}))
+            t += 300_000
+    old_random = mlmod.random
+    mlmod.random = ScriptedRandom()
+    try:
+        _, verdict = run_bounded(sim, wall_s=30.0)
+    finally:
+        mlmod.random = old_random
+    final = [tr.snapshot(nd, i) for i, nd in enumerate(nodes)]
+    delivered = sum(1 for s in tr.segs if s["inp"][0] == "S" and s["inp"][2][0] in ("Rep", "AEReq", "AEResp"))
+    return dict(segs=tr.segs, final=final, verdict=verdict, replies=replies, reads=reads, pre=pre.get("stores"),
+                inflight=len(sent_log) - delivered,
+                open_procs=sum(1 for s in tr.segs if s["inp"][0] == "S") - sum(1 for s in tr.segs if s["y"][0] == "X"))
+
+
+def ver_term(v):
+    return (v[0], v[1], v[2], list(v[3]))
+
+
+def ml_msg_term(m):
+    k = m[0]
+    if k == "W":
+        return Ctor("LWrite", m[1], m[2], m[3], m[4], m[5])
+    if k == "Rd":
+        return Ctor("LRead", m[1], m[2], m[3])
+    if k == "Rep":
+        return Ctor("LRep", m[1], m[2], ver_term(m[3]))
+    if k == "AE":
+        return Ctor("LAE", m[1])
+    if k == "AEReq":
+        return Ctor("LAEReq", m[1], m[2], [tuple(x) for x in m[3]], [(x[0], ver_term(x[1])) for x in m[4]])
+    if k == "AEResp":
+        return Ctor("LAEResp", m[1], [(x[0], ver_term(x[1])) for x in m[2]])
+    return Ctor("LOther")
+
+
+def ml_out_term(o):
+    if o[0] == "Send":
+        return Ctor("MOSend", ml_msg_term(o[1]))
+    if o[0] == "Next":
+        return Ctor("MONext")
+    if o[0] == "Reply":
+        return Ctor("MOReply", o[1])
+    if o[0] == "RdReply":
+        return Ctor("MOReadReply", o[1], None if o[2] is None else SomeV(o[2]))
+    raise ValueError(o)
+
+
+def encode_ml(c, o):
+    cfg = (Nat(c["n"]), c["wlat"], c["rlat"])
+    segs = []
+    for s in o["segs"]:
+        i = s["inp"]
+        inp = Ctor("MStart", i[1], ml_msg_term(i[2])) if i[0] == "S" else Ctor("MResume", i[1])
+        segs.append((inp, [ml_out_term(x) for x in s["outs"]], yld_term(s["y"]), obs_opt_term(s["obs"])))
+    return term((cfg, segs, ([obs_term(f) for f in o["final"]], o["inflight"], o["open_procs"])))
+
+
+def oracle_ml(c, o):
+    out = []
+    if o["verdict"] != "ok":
+        return [dict(clause="simulation terminates", verdict=o["verdict"])]
+    writes = {op[4]: op for op in c["ops"] if op[1] == "W"}
+    acked = {r[0] for r in o["replies"]}
+    for wid, op in writes.items():
+        if op[5] and wid not in acked:
+            out.append(dict(clause="every write is eventually acknowledged", wid=wid))
+    stores = [dict(tuple(x) for x in f[0]) for f in o["final"]]
+    for b in range(1, c["n"]):
+        if stores[b] != stores[0]:
+            out.append(dict(clause="multi-leader: replicas converge once writes stop, messages are delivered and anti-entropy has run",
+                            mechanism="ml-diverged-after-anti-entropy", replica=b, first=stores[0], other=stores[b]))
+            break
+    for k, v in stores[0].items():
+        if not any(op[3] == k and wid == v for wid, op in writes.items()):
+            out.append(dict(clause="multi-leader: the converged value of a key is one of the values written to it", key=k, value=v))
+    written = {op[3] for op in writes.values()}
+    if written - set(stores[0]):
+        out.append(dict(clause="multi-leader: every written key is present after convergence", missing=sorted(written - set(stores[0]))))
+    return out
+
+
+def nontrivial_ml(c, o):
+    ws = [op for op in c["ops"] if op[1] == "W"]
+    return any(a[3] == b[3] and a[2] != b[2] for a in ws for b in ws)      # one key written on two leaders
+
+
 def nontrivial_chain(c, o):
     ks = [op[3] for op in c["ops"] if op[1] == "W" and op[2] == 0]
     return len(ks) != len(set(ks))
@@ -616,6 +848,8 @@ FAMILIES = [
            parallel=True, describe=lambda c: f"{c['mode']},nb={c['nb']}"),
     Family("chain", CH_IMPORTS, "ok_chain", CH_TYPE, gen_chain, impl_chain, encode_chain, oracle_chain, nontrivial_chain, attribute_chain,
            parallel=True, describe=lambda c: f"n={c['n']},craq={c['craq']}"),
+    Family("ml", ML_IMPORTS, "ok_ml", ML_TYPE, gen_ml, impl_ml, encode_ml, oracle_ml, nontrivial_ml,
+           parallel=True, describe=lambda c: f"n={c['n']},{c['resolver']}"),
 ]
 
 TRUSTED = [
@@ -641,7 +875,7 @@ class _Sharded:
 
 
 def run(ctx):
-    ctx.prove(["C17/Model.v", "C17/PBProofs.v", "C17/PBConv.v", "C17/Chain.v", "C17/ChainProofs.v", "C17/ChainConv.v", "C17/Props.v"], allowed_axioms=(), trusted_base=TRUSTED)
+    ctx.prove(["C17/Model.v", "C17/PBProofs.v", "C17/PBConv.v", "C17/Chain.v", "C17/ChainProofs.v", "C17/ChainConv.v", "C17/ML.v", "C17/Props.v"], allowed_axioms=(), trusted_base=TRUSTED)
     n = ctx.n(100, 1500)
     sctx = _Sharded(ctx)
     stats = [run_family(sctx, fam, n) for fam in FAMILIES]
